@@ -440,6 +440,10 @@ func (p op) String() string {
 		return fmt.Sprintf("%c:%d:%d", p.code, p.o, p.d)
 	case 'Y':
 		return fmt.Sprintf("%c:%d:%s", p.code, p.o, p.src)
+	case 'L':
+		return fmt.Sprintf("%c:%s:%d", p.code, p.src, p.d)
+	case 'M':
+		return fmt.Sprintf("%c:%d:%s:%d", p.code, p.o, p.src, p.d)
 	}
 	return fmt.Sprintf("%c:%d", p.code, p.o)
 }
@@ -465,12 +469,21 @@ func parseProg(s string) ([]op, error) {
 		o := op{code: f[0][0]}
 		var err error
 		switch o.code {
-		case 'D', 'R':
+		case 'D', 'R', 'L':
 			if len(f) != 3 {
 				return nil, fmt.Errorf("bad op %q", t)
 			}
 			o.src = f[1]
 			o.d, err = strconv.Atoi(f[2])
+		case 'M':
+			if len(f) != 4 || len(f[2]) < 2 {
+				return nil, fmt.Errorf("bad op %q", t)
+			}
+			o.o, err = strconv.Atoi(f[1])
+			o.src = f[2]
+			if err == nil {
+				o.d, err = strconv.Atoi(f[3])
+			}
 		case 'I', 'E', 'W', 'G', 'K', 'P', 'p', 'F':
 			if len(f) != 3 {
 				return nil, fmt.Errorf("bad op %q", t)
@@ -485,7 +498,7 @@ func parseProg(s string) ([]op, error) {
 			}
 			o.o, err = strconv.Atoi(f[1])
 			o.src = f[2]
-		case 'C', 'c', 'X', 'B', 'N':
+		case 'C', 'c', 'X', 'B', 'N', 'A':
 			if len(f) != 2 {
 				return nil, fmt.Errorf("bad op %q", t)
 			}
@@ -529,6 +542,10 @@ func opName(code byte) string {
 		return "ConvertByteStreamToNaluSample"
 	case 'A':
 		return "AddCompatibleBrands/AddSampleData"
+	case 'L':
+		return "DecodeFile(DecModeLazyMdat)"
+	case 'M':
+		return "MdatBox.ReadData"
 	}
 	return "?"
 }
@@ -566,8 +583,72 @@ func execOp(p op, objs map[int]*object, w *world, cryptKey []byte) (res opResult
 		}
 	}()
 	get := func(k int) *object { return objs[k] }
+	// the bytes a source name "i<k>" (shared input) / "o<k>" (own buffer object) stands for
+	srcBytes := func(src string) []byte {
+		if len(src) < 2 {
+			return nil
+		}
+		k, err := strconv.Atoi(src[1:])
+		if err != nil {
+			return nil
+		}
+		if src[0] == 'i' {
+			if k < 0 || k >= len(inputs) {
+				return nil
+			}
+			return inputs[k]
+		}
+		if o := get(k); o != nil && o.isBuf {
+			return o.buf
+		}
+		return nil
+	}
 	switch p.code {
-	case 'D', 'R':
+	case 'M':
+		// MdatBox.ReadData of the whole payload of every mdat of the file, through a ReadSeeker of the goroutine's own over
+		// the source bytes: lazy mdat -> fresh buffer read from the source, in-memory mdat -> view of MdatBox.Data
+		o := get(p.o)
+		data := srcBytes(p.src)
+		if o == nil || o.file == nil || data == nil {
+			return opResult{class: "skip"}
+		}
+		delete(objs, p.d)
+		rs := bytes.NewReader(data)
+		var mdats []*mp4.MdatBox
+		if o.file.Mdat != nil {
+			mdats = append(mdats, o.file.Mdat)
+		}
+		for _, s := range o.file.Segments {
+			for _, fr := range s.Fragments {
+				if fr.Mdat != nil {
+					mdats = append(mdats, fr.Mdat)
+				}
+			}
+		}
+		var all []mp4.FullSample
+		h := sha256.New()
+		for _, m := range mdats {
+			size := int64(m.Size() - m.HeaderSize())
+			if size == 0 {
+				continue
+			}
+			start := int64(m.PayloadAbsoluteOffset())
+			b, err := m.ReadData(start, size, rs)
+			if err != nil {
+				return opResult{class: "err"}
+			}
+			// CopyData of the same range must give the same bytes
+			var cp bytes.Buffer
+			n, err := m.CopyData(start, size, rs, &cp)
+			if err != nil || n != size || !bytes.Equal(cp.Bytes(), b) {
+				return opResult{class: "ok", digest: "copy-differs", bad: "seq-only:MdatBox.CopyData and MdatBox.ReadData disagree on the same range"}
+			}
+			fmt.Fprintf(h, "%v/%d/%d/", m.IsLazy(), start, size)
+			all = append(all, mp4.FullSample{Data: b})
+		}
+		objs[p.d] = &object{samples: all, isSamp: true}
+		return opResult{class: "ok", digest: fmt.Sprintf("%s,%s", hex.EncodeToString(h.Sum(nil)[:4]), samplesDigest(all))}
+	case 'D', 'R', 'L':
 		var data []byte
 		k, err := strconv.Atoi(p.src[1:])
 		if err != nil {
@@ -589,6 +670,8 @@ func execOp(p op, objs map[int]*object, w *world, cryptKey []byte) (res opResult
 		var f *mp4.File
 		if p.code == 'D' {
 			f, err = mp4.DecodeFile(bytes.NewReader(data))
+		} else if p.code == 'L' {
+			f, err = mp4.DecodeFile(bytes.NewReader(data), mp4.WithDecodeMode(mp4.DecModeLazyMdat))
 		} else {
 			f, err = mp4.DecodeFileSR(bits.NewFixedSliceReader(data))
 		}
